@@ -98,3 +98,55 @@ def load():
         raise RuntimeError("verification hook missing or disabled in %s" % bp.__file__)
     _loaded = ns
     return ns
+
+
+def rule_zone():
+    """A tzinfo with daylight-saving time written by hand (no tz database in the sandbox): UTC-5, UTC-4 from the
+    second Sunday of March 2:00 to the first Sunday of November 2:00 (the USTimeZone example of the datetime docs)."""
+    import datetime as _dt
+    ZERO, HOUR = _dt.timedelta(0), _dt.timedelta(hours=1)
+
+    def first_sunday_on_or_after(dt):
+        days = 6 - dt.weekday()
+        return dt + _dt.timedelta(days) if days else dt
+
+    class RuleZone(_dt.tzinfo):
+        def __repr__(self):
+            return "RuleZone(UTC-5/-4)"
+
+        def tzname(self, dt):
+            return "EDT" if self.dst(dt) else "EST"
+
+        def utcoffset(self, dt):
+            return _dt.timedelta(hours=-5) + self.dst(dt)
+
+        def _range(self, year):
+            return (first_sunday_on_or_after(_dt.datetime(year, 3, 8, 2)), first_sunday_on_or_after(_dt.datetime(year, 11, 1, 2)))
+
+        def dst(self, dt):
+            if dt is None:
+                return ZERO
+            start, end = self._range(dt.year)
+            dt = dt.replace(tzinfo=None)
+            if start + HOUR <= dt < end - HOUR:
+                return HOUR
+            if end - HOUR <= dt < end:
+                return ZERO if dt.fold else HOUR
+            if start <= dt < start + HOUR:
+                return HOUR if dt.fold else ZERO
+            return ZERO
+
+        def fromutc(self, dt):
+            start, end = self._range(dt.year)
+            start, end = start.replace(tzinfo=self), end.replace(tzinfo=self)
+            std = dt + _dt.timedelta(hours=-5)
+            dstt = std + HOUR
+            if end <= dstt < end + HOUR:
+                return std.replace(fold=1)
+            if std < start or dstt >= end:
+                return std
+            if start <= std < end - HOUR:
+                return dstt
+            return std
+
+    return RuleZone()
